@@ -39,17 +39,20 @@ def check_case(res, spec, limit, method, exprs, label):
     ends = sorted({e[0] for e in internal} | {e[-1] for e in internal})
     flagged = set()
     tie = False
+    exact_tie = False
     for v in ends:
         vs_ = [fr.big_edges[b].get_versor_from_vertex(v, fit_method="dlite") for b in fr.vertices[v].own_big_edges]
-        angs = [math.acos(max(-1.0, min(1.0, float(np.dot(a, b))))) for a, b in itertools.combinations(vs_, 2)]
+        angs = [float(np.arccos(np.clip(np.dot(a, b), -1.0, 1.0))) for a, b in itertools.combinations(vs_, 2)]
         if angs and max(angs) >= lim:
             flagged.add(v)
-        if angs and abs(max(angs) - lim) < 1e-9:
-            tie = True
+        if angs and max(angs) == lim:
+            exact_tie = True       # 'opens by AT LEAST the limit': an opening equal to the limit is flagged (judged; only the PrimFloat tie is skipped)
+        elif angs and abs(max(angs) - lim) < 1e-9:
+            tie = True             # within rounding of the limit but not equal: arccos / cos are oracles, not judged
     bad = []
     if tie:
         res.count("angle exactly at the limit (tie, not judged)")
-    else:
+    elif not exact_tie:
         # correspondence of the flagging rule (PrimFloat instance of Model/AngleLimit.v): the junctions' versors and cos(limit) go in, the
         # flagged set must come out.  arccos is decreasing, so angle >= limit <=> clipped dot <= cos(limit); margins of 1e-9 rad are
         # guaranteed by the tie test above
@@ -138,11 +141,31 @@ def tissues(rng, tier):
             yield spec, f"t{k}/kind{kind}"
 
 
+def tie_limit(spec, rng):
+    """a limit equal (bit for bit) to the widest opening of one end junction of an internal interface whose other end opens at least as wide:
+    'at least the limit' then excludes that interface"""
+    fr = impl.frame(spec)
+    wide = {}
+    with impl.quiet():
+        for e in fr.internal_big_edges_vertices:
+            for v in (e[0], e[-1]):
+                if v not in wide:
+                    vs_ = [fr.big_edges[b].get_versor_from_vertex(v, fit_method="dlite") for b in fr.vertices[v].own_big_edges]
+                    angs = [float(np.arccos(np.clip(np.dot(a, b), -1.0, 1.0))) for a, b in itertools.combinations(vs_, 2)]
+                    wide[v] = max(angs) if angs else 0.0
+    cands = [min(wide[e[0]], wide[e[-1]]) for e in fr.internal_big_edges_vertices if 0.5 * math.pi < min(wide[e[0]], wide[e[-1]]) < math.pi]
+    return cands[int(rng.integers(0, len(cands)))] if cands else None
+
+
 def run(res, tier, seed):
     rng = np.random.default_rng(seed)
     exprs = []
     for spec, label in tissues(rng, tier):
         lims = [None, math.pi, float(rng.uniform(0.5, 0.8)) * math.pi, float(rng.uniform(0.8, 0.99)) * math.pi]
+        tl = tie_limit(spec, rng)
+        if tl is not None:
+            lims.append(tl)
+            res.count("limit equal to a junction's widest opening")
         for lim in lims:
             check_case(res, spec, lim, "lsq" if rng.random() < 0.35 else None, exprs, label)
     bools, outs = C.coq_eval_bools("C16", IMPORTS, [e for e, _ in exprs], chunk=20)
